@@ -132,7 +132,14 @@ fn accessor(code: &str, name: &str) -> Option<String> {
     let body = &code[p..];
     let open = body.find('{')?;
     let close = body.find('}')?;
-    Some(body[open + 1..close].trim().replace('_', ""))
+    let text = body[open + 1..close].trim();
+    // a Rust integer literal: an optional minus sign, then a digit, then digits and underscores
+    // ("-_128" is the negation of an identifier, not a number)
+    let digits = text.strip_prefix('-').unwrap_or(text);
+    if !digits.starts_with(|c: char| c.is_ascii_digit()) || !digits.chars().all(|c| c.is_ascii_digit() || c == '_') {
+        return Some(format!("not an integer literal: {text}"));
+    }
+    Some(text.replace('_', ""))
 }
 
 pub fn check(c: &Case) -> Option<Failure> {
